@@ -5,6 +5,8 @@ levels; when STRICT accepts, TOLERANT must accept too, the encodings and validat
 STRICT-built element must draw no validator error other than 'Missing required child'.  Direct probes check that STRICT
 refuses cardinality overflow, foreign/unknown children, datatype overrides and invalid / over-long base values.
 """
+import collections
+
 from .. import tables, er7ref, gen, structref, hist
 from . import c01, c09
 
@@ -51,11 +53,17 @@ def leaf(rng, dt):
 
 def ftext(rng, v, row):
     if row.kind == 'leaf':
+        if rng.random() < 0.06:
+            return leaf(rng, row.datatype) + '^' + leaf(rng, row.datatype)    # a second component in a base-datatype field
         return leaf(rng, row.datatype)
     parts = []
     for c in tables.components(v, row.datatype):
         if rng.random() < 0.4 and c.ok:
             if c.kind == 'leaf' or tables.is_base(v, c.datatype):
+                if rng.random() < 0.08:
+                    # a second sub-component in a base-datatype component
+                    parts.append(leaf(rng, c.datatype) + '&' + leaf(rng, c.datatype))
+                    continue
                 parts.append(leaf(rng, c.datatype))
             else:
                 sp = [leaf(rng, s.datatype) if rng.random() < 0.4 and s.kind == 'leaf' else ''
@@ -91,6 +99,11 @@ def compare(strict_thunk, tolerant_thunk, rec, case, sig):
     except Exception as e:
         rec.violation('tolerant-rejects-what-strict-accepts:%s' % type(e).__name__, case, {'exc': repr(e)[:200]})
         return
+    over = overflows(a, case.get('version') or (case.get('world') or {}).get('version'))
+    rec.count('strict_trees_walked')
+    if over:
+        rec.violation('strict-let-a-child-exceed-its-maximum:%s' % over[0][0], case, {'where': [o[1] for o in over[:3]]})
+        return
     ea, eb = a.to_er7(), b.to_er7()
     reordered = False
     if ea != eb:
@@ -112,6 +125,39 @@ def compare(strict_thunk, tolerant_thunk, rec, case, sig):
     if other:
         rec.violation('strict-accepted-element-draws-error:%s' % ' '.join(other[0].split()[:2]), case,
                       {'errors': other[:3]})
+
+
+def overflows(root, v):
+    """maximum cardinalities, read from the tables by tables.py, that the STRICT-built tree exceeds:
+    a field or component of a base datatype holds one child; a segment holds each field name at most max times; a complex
+    field/component holds each component name once"""
+    from .. import treeinv
+    out = []
+    if v is None:
+        return out
+    for e in treeinv.walk(root):
+        d = e.__dict__
+        cls = type(e).__name__
+        ks = treeinv.kids(e)
+        if cls in ('Field', 'Component'):
+            dt = d.get('_datatype')
+            if dt is not None and dt != 'varies' and tables.is_base(v, dt):
+                if len(ks) > 1:
+                    out.append(('base-datatype-%s' % cls.lower(), '%s %s of type %s holds %d children' % (cls, d.get('name'), dt,
+                                                                                                  len(ks))))
+            elif dt in tables.complex_datatypes(v) and d.get('name'):
+                byname = collections.Counter(k.__dict__.get('name') for k in ks)
+                rows = dict((r.name, r) for r in tables.components(v, dt) if r.ok)
+                for n, k in byname.items():
+                    if n in rows and rows[n].card[1] not in (-1, None) and k > max(rows[n].card[1], 0):
+                        out.append(('component-name', '%s %s holds %s x%d' % (cls, d.get('name'), n, k)))
+        elif cls == 'Segment':
+            rows = dict((r.name, r) for r in (tables.segments(v).get(d.get('name')) or []) if r.ok)
+            byname = collections.Counter(k.__dict__.get('name') for k in ks)
+            for n, k in byname.items():
+                if n in rows and rows[n].card[1] != -1 and k > rows[n].card[1]:
+                    out.append(('field-name', 'Segment %s holds %s x%d (max %d)' % (d.get('name'), n, k, rows[n].card[1])))
+    return out
 
 
 def classify_enc(case, ea, eb):
@@ -274,6 +320,32 @@ def run_refusals(spec, rec):
                 probes.append(('invalid-or-overlong-value:%s' % dt,
                                lambda dt=dt, bad=bad: core.SubComponent(datatype=dt, value=bad, version=v,
                                                                         validation_level=1)))
+        # values spelled with digits outside ASCII are no HL7 numbers, sequence ids or dates
+        for dt, bad in (('NM', u'\u0661\u0662\u0663'), ('NM', u'1\u0665'), ('NM', u'\uff11.\uff15'), ('SI', u'\u0967'),
+                        ('DT', u'\uff12\uff10\uff12\uff10\uff10\uff11\uff10\uff11'), ('TM', u'\u0661\u0662'),
+                        ('DTM', u'2020010\u0661')):
+            if dt in tables.base_datatypes(v):
+                probes.append(('invalid-or-overlong-value:%s:non-ascii-digits' % dt,
+                               lambda dt=dt, bad=bad: core.SubComponent(datatype=dt, value=bad, version=v,
+                                                                        validation_level=1)))
+        # a component of any base datatype of the version holds one sub-component
+        for dt in sorted(tables.base_datatypes(v)):
+            def second(dt=dt):
+                c = core.Component(datatype=dt, version=v, validation_level=1)
+                c.add(core.SubComponent(datatype=dt, value=gen.witness(v, dt), version=v, validation_level=1))
+                c.add(core.SubComponent(datatype=dt, value=gen.witness(v, dt), version=v, validation_level=1))
+            probes.append(('cardinality-overflow:second-subcomponent-in-%s-component' % dt, second))
+        named = {}
+        for cdt in tables.complex_datatypes(v):
+            for crow in tables.components(v, cdt):
+                if crow.ok and crow.card[1] != 0 and tables.is_base(v, crow.datatype) and crow.datatype not in named:
+                    named[crow.datatype] = crow.name
+        for dt, cname in sorted(named.items()):
+            def second_named(dt=dt, cname=cname):
+                c = core.Component(cname, version=v, validation_level=1)
+                c.add(core.SubComponent(datatype=dt, value=gen.witness(v, dt), version=v, validation_level=1))
+                c.add(core.SubComponent(datatype=dt, value=gen.witness(v, dt), version=v, validation_level=1))
+            probes.append(('cardinality-overflow:second-subcomponent-in-%s' % cname, second_named))
         for what, fn in probes:
             rec.evaluation(('refusal', v, what))
             case = {'kind': 'refusal', 'version': v, 'what': what}
